@@ -306,7 +306,8 @@ Record contracts (W : oracle) : Prop := mkContracts {
   (* "EPSG:x".upper() still starts with "EPSG:" *)
   k_epsg_upper : forall t, o_is_epsg W t = true -> o_is_epsg W (o_upper W t) = true;
   (* f"EPSG:{n}" is upper case, starts with "EPSG:" and int() of its tail is n *)
-  k_etext : forall n, o_is_epsg W (o_epsg_text W n) = true /\ o_upper W (o_epsg_text W n) = o_epsg_text W n /\
+  k_etext : forall n r, o_prep W (o_epsg_text W n) = Some r ->
+                      o_is_epsg W (o_epsg_text W n) = true /\ o_upper W (o_epsg_text W n) = o_epsg_text W n /\
                       o_code W (o_epsg_text W n) = n;
   (* pyproj keeps an authority string as its srs ... *)
   k_prep_epsg : forall t r, o_is_epsg W (o_upper W t) = true -> o_prep W t = Some r -> r = t;
@@ -318,6 +319,9 @@ Record contracts (W : oracle) : Prop := mkContracts {
   (* to_epsg of "EPSG:n" is n *)
   k_toepsg_code : forall s, o_is_epsg W (o_upper W s) = true -> o_prep W s = Some s ->
                             o_to_epsg W s = Some (o_code W (o_upper W s));
+  (* an accepted authority string is spelled f"EPSG:{code}" up to letter case, code non-zero *)
+  k_code_text : forall s, o_is_epsg W (o_upper W s) = true -> o_prep W s = Some s ->
+                          o_upper W s = o_epsg_text W (o_code W (o_upper W s)) /\ o_code W (o_upper W s) <> 0;
   (* pyproj-equal objects are not identified with two different EPSG codes *)
   k_toepsg_peq : forall a b n m, o_peq W a b = true -> o_to_epsg W a = Some n -> o_to_epsg W b = Some m ->
                                  n <> 0 -> m <> 0 -> n = m
